@@ -814,6 +814,54 @@ def layerwalk(prop, pk, T, N, letters, ins, vio, seq=None):
     return n
 
 
+def compose_history(pk, T, N, letters, ins, vio):
+    """compose() must not entangle the two circuits: after a.compose(b), adding gates to a must leave b's
+    action and layer chain untouched, and adding gates to b must leave a untouched (history
+    compose -> in-place mutation of one circuit -> re-observe the other; every split point incl. the
+    empty receiver and the empty argument)."""
+    n = 0
+    A = alphabet(pk.tag, N)
+    extra = [A[0], A[-1]]
+    L = len(letters)
+    for cls in pk.classes:
+        if not pk.has(cls, 'compose'):
+            continue
+        c = 'cc' if cls == 'CliffordCircuit' else 'ct'
+        for k in range(L + 1):
+            fa = ident(N)
+            for l in letters:
+                fa = l.perm[fa]
+            fb = ident(N)
+            for l in letters[k:]:
+                fb = l.perm[fb]
+            for who in ('receiver', 'argument'):
+                try:
+                    a, ga = build(pk, cls, N, letters[:k])
+                    b, gb = build(pk, cls, N, letters[k:])
+                    a.compose(b)
+                    mut, other, fo, go = (a, b, fb, gb) if who == 'receiver' else (b, a, fa, ga + gb)
+                    for e in extra:
+                        mut.take(e.mk(pk))
+                except Exception as e_:
+                    vio('%s/%s.compose-then-take/raises-%s' % (T, c, type(e_).__name__), 'compose at split %d then take on the %s raised %s: %s' % (k, who, type(e_).__name__, e_))
+                    return n + 1
+                fwd, back = walk(other)
+                held = [g for lay in fwd for g in lay.gates]
+                if len(held) != len(go) or any(x is not y for x, y in zip(sorted(held, key=id), sorted(go, key=id))):
+                    vio('%s/%s.compose-then-take/%s-mutated/other-gained-gates' % (T, c, who),
+                        'after a.compose(b) (split %d: %d + %d gates) and two take() on the %s, the OTHER circuit holds %d gates instead of %d' % (k, k, L - k, who, len(held), len(go)))
+                    return n + 1
+                for inp in ins[:2]:
+                    obj = pk.fresh(inp)
+                    other.forward(obj)
+                    n += 1
+                    if not agrees_with_ref(observe(pk, obj, inp), inp, fo):
+                        vio('%s/%s.compose-then-take/%s-mutated/other-action-changed' % (T, c, who),
+                            'after a.compose(b) (split %d) and two take() on the %s, the OTHER circuit no longer acts as its own gate sequence on %s' % (k, who, inp.name))
+                        return n
+    return n
+
+
 # ======================================================================= program runner
 def run_programs(prop, tag, items):
     """items = [[N, [letter indices]], ...].  prop in {'C09','C10'}; tag in {'py','torch'}."""
@@ -876,6 +924,9 @@ def run_programs(prop, tag, items):
                 n += 1
                 for phase, what, msg in structs[:3]:
                     vio('%s/structure/%s/%s' % (T, phase, what), '%s: %s' % (label, msg))
+        if tag == 'py' and prop == 'C09' and 1 <= L <= 3:
+            n += compose_history(pk, T, N, letters, ins, vio)
+            extra['cfg_compose-then-take'] = extra.get('cfg_compose-then-take', 0) + 1
         if tag == 'py' and L >= 2:
             c = layerwalk(prop, pk, T, N, letters, ins, vio, seq=seq)
             n += c
